@@ -278,7 +278,7 @@ def run(repo: Repo) -> Result:
             )
     if set(got_returns) - set(want_returns):
         res.add("C13-SHAPE", sl.qual, "window:extra-path", f"_slice has an unexpected return path {sorted(set(got_returns) - set(want_returns))}", sl.file, sl.line)
-    want_eff = nf(f"context.stopindex(key={KEY}, index={STOP_})")
+    want_eff = nf(f"context.stopindex(index={STOP_}, key={KEY})")  # keyword arguments are in alphabetical order after loading
     effs = [(c, symb.norm(e)) for c, e in summ.effects if callee_name(e) == "stopindex"]
     if [(c, e) for c, e in effs] != [([], want_eff)]:
         res.add("C13-SHAPE", sl.qual, "store-stop", f"every loop must store its (clamped) stop index under `identifier-iterable` unconditionally; found {[(c, e[:120]) for c, e in effs]}", sl.file, sl.line)
